@@ -151,7 +151,28 @@ func genEQ(o *Out, r *Rng, n int, tier string) {
 			q := r.Intn(j + 1)
 			y[j], y[q] = y[q], y[j]
 		}
-		switch r.Intn(4) {
+		switch r.Intn(5) {
+		case 4: // one instant moved by a distance that a truncating comparison does not see
+			if len(y) > 0 {
+				i := r.Intn(len(y))
+				p := strings.Split(y[i], ".")
+				sec := atoi64(p[0])
+				switch r.Intn(6) {
+				case 0:
+					sec += 1 << 32
+				case 1:
+					sec -= 1 << 32
+				case 2:
+					sec += 1 << 31
+				case 3:
+					sec += 3 << 32
+				case 4: // nanoseconds: same second, one nanosecond apart / a full second apart in nanoseconds
+					p[1] = itoa(atoi64(p[1]) ^ 1)
+				default:
+					sec = -sec - 1
+				}
+				y[i] = itoa(sec) + "." + p[1] + "." + p[2]
+			}
 		case 0: // pure shuffle
 		case 1: // replace one element by another element of the list (multiplicity change)
 			if len(y) > 1 {
